@@ -6,7 +6,7 @@ from common import Some, Nat, Raw, opt, coq
 LEVEL = "proof"
 COQ_IMPORTS = ["Tie.C05"]
 RULE = ("2D and 3D curves, open and closed, total length from 1e-3 to 1e3 with uneven vertex density; resampling by count "
-        "(2..40), by spacing and by maximum spacing (incl. spacing larger than the curve and exact divisors of its length); "
+        "(2..200), by spacing and by maximum spacing (incl. spacing larger than the curve and exact divisors of its length); "
         "simplification tolerances from below the smallest feature to above the largest, on open and closed curves, incl. "
         "vertices beyond the end of a chord; gap filling with maxima below, at and above the gaps. distinct = distinct (tag, input)")
 TRUSTED_BASE = [
@@ -48,11 +48,11 @@ def gen_curve(rng, dim):
     L = length_of(pts) + (math.dist(pts[0], pts[-1]) if closed else 0.0)
     r = rng.random()
     if r < 0.4:
-        mode = {"mode": "count", "n": rng.choice([2, 3, 5, 8, 17, 40])}
+        mode = {"mode": "count", "n": rng.choice([2, 3, 5, 8, 17, 40, rng.randint(2, 200), rng.randint(2, 200)])}
     elif r < 0.7:
         mode = {"mode": "spacing", "s": L * rng.choice([0.03, 0.1, 0.25, 0.5, 0.34, 1.5])}
     else:
-        mode = {"mode": "max", "s": L * rng.choice([0.05, 0.1, 0.2, 0.25, 0.5, 1.0, 2.0, 0.37])}
+        mode = {"mode": "max", "s": L * rng.choice([0.05, 0.1, 0.2, 0.25, 0.5, 1.0, 2.0, 0.37, 1.0 / rng.randint(3, 150)])}
     e = length_of(pts) / len(pts) * rng.choice([0.001, 0.05, 0.3, 1.0, 5.0])
     c = {"k": "c05.curve%d" % dim, "pts": pts, "tol": min(1e-6, L * 1e-6), "e": e}
     if dim == 2:
@@ -80,6 +80,17 @@ def gen_fill(rng):
     return {"k": "c05.fill", "pts": pts, "maxd": max(maxd, 1e-9)}
 
 
+def gen_sweep(rng):
+    """many counts on one open curve: the request/positions relation depends on (length, count) pairs"""
+    dim = rng.choice([2, 3])
+    pts = rnd_curve(rng, dim)
+    if rng.random() < 0.4:       # plain lengths such as 0.7, 3, 10
+        L = rng.choice([0.7, 3.0, 10.0, 0.3, 7.0])
+        pts = [[0.0] * dim, [L] + [0.0] * (dim - 1)]
+    counts = sorted(set(rng.randint(2, 260) for _ in range(60)))
+    return {"k": "c05.sweep", "dim": dim, "pts": pts, "tol": 1e-9 * max(length_of(pts), 1e-9), "counts": counts, "max": rng.random() < 0.3}
+
+
 def corpus():
     # D1: length-7 and length-0.7 curves by count; D2: exact divisor; D3/D4: closed curve and beyond-the-end vertex
     yield {"k": "c05.curve2", "pts": [[0.0, 0.0], [7.0, 0.0]], "tol": 1e-6, "closed": False, "mode": "count", "n": 8, "e": 0.01}
@@ -94,6 +105,8 @@ def generate(rng, tier):
     out = []
     for _ in range(n):
         out += [gen_curve(rng, 2), gen_curve(rng, 3), gen_rdp(rng), gen_fill(rng)]
+    for _ in range(n // 4):
+        out.append(gen_sweep(rng))
     return out
 
 
@@ -254,6 +267,25 @@ def oracle(c, r):
                         break
             if k == "c05.curve2" and sm.get("closed") != r["src"]["closed"]:
                 yield ("simplify-closed", "simplify changed closedness")
+    elif k == "c05.sweep":
+        first, last, L = r["first"], r["last"], r["length"]
+        for n, o in zip(c["counts"], r["out"]):
+            what = "resample(%s) of a %dD curve of length %r" % ("ByMaxSpacing(L/%d)" % n if c["max"] else "ByCount(%d)" % n, c["dim"], L)
+            if o.get("panic") or o.get("err"):
+                yield ("resample-failed", what + (" panicked" if o.get("panic") else " returned an error"))
+                break
+            want = n + 1 if c["max"] else n
+            # ByMaxSpacing(L/n): ceil(L/(L/n)) may round to n or n+1 intervals; both satisfy the request
+            ok_counts = (want, want + 1) if c["max"] else (want,)
+            if o["n"] not in ok_counts:
+                yield ("resample-count", what + ": %d vertices" % o["n"])
+                break
+            if math.dist(o["first"], first) > 1e-9 * L or math.dist(o["last"], last) > 1e-9 * L:
+                yield ("resample-span", what + ": result runs from %r to %r, the curve from %r to %r" % (o["first"], o["last"], first, last))
+                break
+            if o["length"] > L * (1 + 1e-9):
+                yield ("resample-longer", what + ": length %r" % o["length"])
+                break
     elif k == "c05.rdp":
         src, sp, e = c["pts"], r["points"], c["e"]
         if sp[0] != src[0] or sp[-1] != src[-1]:
